@@ -15,6 +15,10 @@
  Rm memo          : every memoisation construct in the functions behind this property is keyed by everything it reads.
  Rp presence      : optional numeric fields are tested with `is None` / membership, never by truthiness (0 is a value).
  Rk field/key     : the parameter classes store every configuration entry under its own name (frozen rename table).
+ Ru units         : lengths configured with a unit entry are only used through convert_length(value, same record's length_units).
+ Rs sorted        : every numpy.interp abscissa is ascending by construction or by a recorded precondition.
+ R5 lumped once    : Raman solver: per-section / per-step loss factors are a selection of the lumped-loss array (never an
+                     accumulation) while the start power of a section is the end of the previous one.
 """
 import ast
 
@@ -310,6 +314,84 @@ def r4_cd(ctx):
 
 
 
+def r5_lumped_once(ctx):
+    """R5: with Raman on, each lumped loss is applied once.  Both solver methods carry the power from one z position / section
+    to the next (the loop-carried start power is the end of the previous section), so the factor applied per section must be
+    the single loss located there: the per-section factors are a SELECTION of the lumped-loss array (mask, subscript,
+    append of the neutral 1), never an accumulation (cumprod / cumsum / prod) of it"""
+    from ..dataflow import local_defs
+    repo = ctx.repo
+    rs = repo.cls('RamanSolver', 'gnpy.core.science_utils')
+    f = repo.method(rs, 'calculate_unidirectional_stimulated_raman_scattering')
+    if 'lumped_losses' not in f.params:
+        raise AnchorMissing('calculate_unidirectional_stimulated_raman_scattering(.., lumped_losses)')
+    LL = 'lumped_losses'
+    defs = local_defs(f.node)
+    SELECT = {'append', 'concatenate', 'hstack', 'array', 'asarray', 'insert'}
+
+    def selection(e, depth=4):
+        """None if e is a selection of LL elements (and neutral constants), else the offending sub-expression"""
+        if isinstance(e, ast.Constant):
+            return None if e.value == 1 else e
+        if isinstance(e, ast.Name):
+            if e.id == LL:
+                return None
+            ds = [v for _, v in defs.get(e.id, []) if isinstance(v, ast.AST)]
+            if not ds or depth == 0:
+                return e
+            for v in ds:
+                bad = selection(v, depth - 1)
+                if bad is not None:
+                    return bad
+            return None
+        if isinstance(e, ast.Subscript):
+            return selection(e.value, depth)
+        if isinstance(e, (ast.List, ast.Tuple)):
+            for x in e.elts:
+                bad = selection(x, depth)
+                if bad is not None:
+                    return bad
+            return None
+        if isinstance(e, ast.Call) and isinstance(e.func, ast.Name) and e.func.id in SELECT:
+            for x in e.args:
+                bad = selection(x, depth)
+                if bad is not None:
+                    return bad
+            return None
+        return e
+    s_ = site(f)
+    n = 0
+    for lp in [x for x in walk_no_nested(f.node) if isinstance(x, ast.For)]:
+        it = lp.iter
+        if isinstance(it, ast.Call) and isinstance(it.func, ast.Name) and it.func.id == 'zip' and isinstance(lp.target, ast.Tuple):
+            for tv, src in zip(lp.target.elts, it.args):
+                # the loop variable that scales the carried power
+                scales = [b for b in ast.walk(lp) if isinstance(b, ast.BinOp) and isinstance(b.op, ast.Mult) and isinstance(tv, ast.Name) and
+                          any(isinstance(x, ast.Name) and x.id == tv.id for x in (b.left, b.right))]
+                if not scales or LL not in {x.id for v in [src] for x in ast.walk(v) if isinstance(x, ast.Name)} | \
+                        {y.id for nm in [getattr(src, 'id', None)] if nm for _, v in defs.get(nm, []) if isinstance(v, ast.AST)
+                         for y in ast.walk(v) if isinstance(y, ast.Name)}:
+                    continue
+                n += 1
+                bad = selection(src)
+                carried = [a for a in ast.walk(lp) if isinstance(a, ast.Assign) and isinstance(a.targets[0], ast.Name) and
+                           any(isinstance(x, ast.Name) and x.id == a.targets[0].id for sc in scales for x in (sc.left, sc.right))]
+                ctx.check('R5.lumped-once', f'{s_} section factors (perturbative)', bad is None and bool(carried), key(f, 'perturbative'),
+                          'the per-section loss factors are not a plain selection of the lumped losses while the start power of a section '
+                          'is the end of the previous one: earlier losses would be applied again in every later section',
+                          ast.unparse(bad)[:100] if bad is not None else '')
+        if isinstance(it, ast.Call) and isinstance(it.func, ast.Name) and it.func.id == 'range':
+            iv = lp.target.id if isinstance(lp.target, ast.Name) else None
+            uses = [x for x in ast.walk(lp) if isinstance(x, ast.Subscript) and isinstance(x.value, ast.Name) and x.value.id == LL]
+            if uses:
+                n += 1
+                ok = all(iv in {y.id for y in ast.walk(u.slice) if isinstance(y, ast.Name)} for u in uses) and len(uses) == 1 and \
+                    isinstance(getattr(uses[0], '_parent', None), ast.BinOp) and isinstance(uses[0]._parent.op, ast.Mult)
+                ctx.check('R5.lumped-once', f'{s_} step factor (numerical)', ok, key(f, 'numerical'),
+                          'the numerical solver does not multiply each step by the single lumped loss located at that step')
+    ctx.need('R5.lumped-once', 2)
+
+
 def rk_field_key(ctx):
     """Rk: the parameter classes behind this property store every configuration entry under its own name (self.X = params['X']);
     the deliberate renames are a frozen table (gscan/fieldkey.py)"""
@@ -317,6 +399,24 @@ def rk_field_key(ctx):
     repo = ctx.repo
     n = field_key_rule(ctx, 'Rk.field-key', [repo.cls('FiberParams', 'gnpy.core.parameters')], 'a fibre parameter would be taken from another entry')
     ctx.need('Rk.field-key', 5)
+
+
+def ru_units(ctx):
+    """Ru: lengths configured with a unit entry (Span max_length, fibre length + length_units) are only used through
+    convert_length(value, the same record's length_units)"""
+    from .common import units_rule
+    repo = ctx.repo
+    units_rule(ctx, 'Ru.units', repo.cls('FiberParams', 'gnpy.core.parameters').all_funcs(), 'a fibre length given in metres would be read as kilometres')
+    ctx.need('Ru.units', 1)
+
+
+def rs_sorted(ctx):
+    """Rs: every numpy.interp call behind this property interpolates over an abscissa that is ascending by construction or by a
+    recorded precondition (numpy.interp does not check)"""
+    from .common import interp_rule
+    repo = ctx.repo
+    interp_rule(ctx, 'Rs.sorted-abscissa', repo.cls('Fiber', EL).all_funcs() + repo.cls('RamanFiber', EL).all_funcs(), 'a per-frequency fibre table given in another order would silently give a wrong loss or dispersion')
+    ctx.need('Rs.sorted-abscissa', 1)
 
 
 from ..memo import rule_for as _memo_rule
@@ -328,4 +428,4 @@ from ..presence import rule_for as _presence_rule
 
 RULES_PRESENCE = ('Rp.presence', _presence_rule('C05', 'a fibre parameter of exactly 0 would be replaced by a default'))
 
-RULES = [('R4.cd', r4_cd), ('R1.once', r1_once), ('R2.budget', r2_budget), ('R3.accumulators', r3_accumulators), RULES_MEMO, RULES_PRESENCE, ('Rk.field-key', rk_field_key)]
+RULES = [('R4.cd', r4_cd), ('R1.once', r1_once), ('R2.budget', r2_budget), ('R3.accumulators', r3_accumulators), RULES_MEMO, RULES_PRESENCE, ('Rk.field-key', rk_field_key), ('Ru.units', ru_units), ('Rs.sorted-abscissa', rs_sorted), ('R5.lumped-once', r5_lumped_once)]
